@@ -740,3 +740,35 @@ def with_free_symbols(rx, syms):
     if k == 'star':
         return rcat(loop, rstar(with_free_symbols(rx[1], syms)), loop)
     return rx
+
+
+def find_common_many(a, b, n=5, limit=200000):
+    """Up to n distinct shortest words of L(a) & L(b)."""
+    A = _as_nfa(a)
+    B = _as_nfa(b)
+    start = (A.start, B.start)
+    queue = deque([(start, ())])
+    seen = {}
+    out = []
+    steps = 0
+    while queue and len(out) < n:
+        node, word = queue.popleft()
+        steps += 1
+        if steps > limit:
+            break
+        a_st, b_st = node
+        acl = A.closure1(a_st)
+        bcl = B.closure1(b_st)
+        if A.accept in acl and B.accept in bcl and list(word) not in out:
+            out.append(list(word))
+        if seen.get(node, 0) >= 3:
+            continue
+        seen[node] = seen.get(node, 0) + 1
+        for a1 in acl:
+            for a_set, a_dst in A.trans[a1]:
+                for b1 in bcl:
+                    for b_set, b_dst in B.trans[b1]:
+                        common = iv_inter(a_set, b_set)
+                        if common:
+                            queue.append(((a_dst, b_dst), word + (common[0][0],)))
+    return out
